@@ -116,8 +116,15 @@ def write_files(rng, reacs, d: Path):
                 sp = r["re"] + [""] * (2 - len(r["re"])) + r["pr"] + [""] * (4 - len(r["pr"]))
                 if len(r["re"]) > 2:
                     sp = r["re"][:2] + r["pr"] + [""] * (4 - len(r["pr"]))
-                lines.append(":".join([str(idx), "NN", *sp, "1", f"{r['alpha']:.2e}", "0.00", "0.0", f"{r['tmin']!r}", f"{r['tmax']!r}",
-                                       "L", "C", '"x"', "", ""]))
+                if r["tmax"] > 0 and (idx % 2 == 0 or sum(1 for l in lines if ":NN:" in l and l.count(":") > 20) == 0):
+                    # a RATE12 line with two fits (NE = 2; nine fields per fit): naunet reads the first fit, whose window is the one declared
+                    # here; the second fit covers the temperatures above it
+                    lines.append(":".join([str(idx), "NN", *sp, "2", f"{r['alpha']:.2e}", "0.00", "0.0", f"{r['tmin']!r}", f"{r['tmax']!r}",
+                                           "M", "A", '"x"', '"n"', f"{r['alpha'] * 3:.2e}", "0.00", "0.0", f"{r['tmax']!r}", f"{r['tmax'] * 10!r}",
+                                           "M", "A", '"x"', '"n"', ""]))
+                else:
+                    lines.append(":".join([str(idx), "NN", *sp, "1", f"{r['alpha']:.2e}", "0.00", "0.0", f"{r['tmin']!r}", f"{r['tmax']!r}",
+                                           "L", "C", '"x"', "", ""]))
             elif fmt == "uclchem":
                 k = r["kind"]
                 re_ = (r["re"] + ["NAN"] * 3)[:3] if k == "MA" else [r["re"][0], k, "NAN"]
